@@ -291,7 +291,15 @@ def _tup(x):
 
 
 class Wrapped(urwid.WidgetWrap):
-    pass
+    """a composite widget as applications write them: a WidgetWrap subclass that may exchange what it shows
+    ("Change the wrapped widget.  This is meant to be called only by subclasses."), with either spelling
+    urwid ships: the ``_w`` property, or ``_set_w()`` (deprecated, supported until 5.0)"""
+
+    def show(self, widget, legacy=False):
+        if legacy:
+            self._set_w(widget)
+        else:
+            self._w = widget
 
 
 def build(spec, enc="utf-8", rec=None):
